@@ -37,6 +37,9 @@ PROPS = {
     "C07": dict(world="reducer_world", level="exploration",
                 quick=dict(runs=20000, wall=240, chunk=500), thorough=dict(runs=800000, wall=1500, chunk=4000),
                 assumptions=COMMON_ASSUME + ["continuous values compared with |a-b| <= 2e-5 + 2e-4|b|; view times within max(4 tol, 0.05 dt) of the grid but outside tol are not judged"]),
+    "C10": dict(world="updater_world", level="exploration",
+                quick=dict(runs=8000, wall=300, chunk=100), thorough=dict(runs=300000, wall=1800, chunk=1000),
+                assumptions=COMMON_ASSUME + ["applied values compared with 2e-5 + 2e-4|b| (+1e-5 x total part magnitude); non-finite expectations (fractional powers of negative bases after leaving the range) are not judged"]),
     "C13": dict(world="record_world", level="exploration",
                 quick=dict(runs=40000, wall=240, chunk=500), thorough=dict(runs=1500000, wall=1500, chunk=4000),
                 assumptions=COMMON_ASSUME),
